@@ -227,6 +227,54 @@ def main(chk):
     serialization.MAX_CHUNK_SIZE = old_max
   chk.sample({'spec': 'StateDict', 'case': {k: cases[0][k] for k in ('x', 'edit', 'epath', 'ok', 'errpath')}})
 
+  # ---- the path named by the error is the path of *this* restore: another thread in the middle of its own (valid) restore, parked
+  # inside the from_state_dict hook of a registered type two levels down, must not leak its path into the message
+  import threading
+
+  class Parked:
+    def __init__(self, value):
+      self.value = value
+  entered, release = threading.Event(), threading.Event()
+
+  def parked_restore(x, state):
+    entered.set()
+    release.wait(60)
+    return Parked(state['value'])
+  serialization.register_serialization_state(Parked, lambda x: {'value': x.value}, parked_restore, override=True)
+  done = {}
+
+  def worker():
+    try:
+      done['out'] = serialization.from_state_dict({'model': {'layer': Parked(np.zeros(3))}},
+                                                  serialization.to_state_dict({'model': {'layer': Parked(np.ones(3))}}))
+    except BaseException as e:      # noqa: BLE001
+      done['err'] = e
+  t = threading.Thread(target=worker)
+  t.start()
+  entered.wait(60)
+  msgs = {}
+  try:
+    for name, target, saved in (('list-length', {'opt': {'mu': [np.zeros(2), np.zeros(2)]}}, {'opt': {'mu': [np.ones(2)]}}),
+                                ('missing-key', {'opt': {'mu': {'w': np.zeros(2)}}}, {'opt': {'mu': {}}})):
+      try:
+        serialization.from_state_dict(target, serialization.to_state_dict(saved))
+        msgs[name] = None
+      except ValueError as e:
+        msgs[name] = str(e)
+  finally:
+    release.set()
+    t.join(60)
+  for name, msg in msgs.items():
+    key = f'C10:threads:error-path:{name}'
+    chk.count(key)
+    if msg is None:
+      chk.violation(key, 'a mismatching restore was accepted while another thread was restoring', {})
+    elif './opt/mu' not in msg or 'model' in msg or 'layer' in msg:
+      chk.violation(key, f'the error of this thread\'s restore does not name its own path ./opt/mu: {msg[:200]}', {})
+  if 'err' in done or not isinstance(done.get('out', {}).get('model', {}).get('layer'), Parked) or \
+     not np.array_equal(done['out']['model']['layer'].value, np.ones(3)):
+    chk.violation('C10:threads:concurrent-restore', f'the restore running in the other thread did not complete correctly: {done}', {})
+
   # ---- every leaf kind on its own, all thresholds ---------------------------------------------------------
   for name, leaf in table:
     for M in thresholds:
